@@ -32,6 +32,19 @@ def exSorted : List Text :=
    "Chromosome\tStart_Position\tEnd_Position\n".toList,
    "chr1\t10\t20\n".toList, "chr1\t5\t7\n".toList]
 
+/-- a file declaring `Coordinate` order (no contig list) whose second record has the start
+    position `abc`, not a number; the records that can be keyed are in order -/
+def exBadPos : List Text :=
+  ["#version 2.4\n".toList, "#sort.order Coordinate\n".toList,
+   "Chromosome\tStart_Position\tEnd_Position\n".toList,
+   "chr1\t10\t20\n".toList, "chr1\tabc\t7\n".toList, "chr1\t30\t40\n".toList]
+
+/-- the same with a third record that is out of order relative to the FIRST one -/
+def exBadPosDesc : List Text :=
+  ["#version 2.4\n".toList, "#sort.order Coordinate\n".toList,
+   "Chromosome\tStart_Position\tEnd_Position\n".toList,
+   "chr1\t10\t20\n".toList, "chr1\tabc\t7\n".toList, "chr1\t5\t6\n".toList]
+
 /-- a registry that supports the version and annotation of `exClean` (still without schemes) -/
 def exR2 : Registry := { schemes := [], supportedVersions := ["2.4"], supportedAnnotations := ["gdc-1.0.0"] }
 
